@@ -28,6 +28,10 @@ func c04Gen(rng *rand.Rand, m *model.Model, keys []string) []string {
 		}
 		return pick(rng, []string{"v", "", "hello", "1.5", "-0.25", "3e3", "x\x00y"})
 	}
+	if rng.Intn(30) == 0 {
+		// the key's deadline has passed but its object is still stored: every command must treat it as missing
+		return []string{pick(rng, []string{"PEXPIREAT", "EXPIREAT"}), k, "1"}
+	}
 	if rng.Intn(40) == 0 {
 		// wide commands: 65-200 fields in one command
 		w := 65 + rng.Intn(136)
